@@ -669,9 +669,13 @@ where
     }
 
     fn update_needed_len(&mut self) {
+        // The step in input time is ramped linearly from 1/resample_ratio to 1/target_ratio
+        // over the chunk, so the input consumed is the sum of that arithmetic progression.
         self.needed_input_size = (self.last_index as f32
-            + self.chunk_size as f32
-                / (0.5 * self.resample_ratio as f32 + 0.5 * self.target_ratio as f32)
+            + self.chunk_size as f32 / self.resample_ratio as f32
+            + 0.5
+                * (self.chunk_size + 1) as f32
+                * (1.0 / self.target_ratio as f32 - 1.0 / self.resample_ratio as f32)
             + self.interpolator.len() as f32)
             .ceil() as usize;
     }
